@@ -1,15 +1,26 @@
 #!/bin/sh
-# Full development regression: (1) all 20 checks silent on /repo (regenerates evidence), (2) every seeded change
-# reported, (3) every reverted fix reported again, (4) every benign refactoring silent.
+# Full development regression, four stages in parallel (each with its own scratch worktree and scratch evidence dir):
+# (1) all 20 checks silent on /repo (regenerates evidence), (2) every seeded change reported, (3) every reverted
+# fix reported again, (4) every benign refactoring silent. Output: /tmp/regress.<stage>.out, summary on stdout.
 cd /verif || exit 2
-rc=0
-echo "== checks on /repo"
-for c in C01 C02 C03 C04 C05 C06 C07 C08 C09 C10 C11 C12 C13 C14 C15 C16 C17 C18 C19 C20; do
-  out=$(./check.sh $c quick 2>&1); e=$?
-  echo "$out" | tail -1 | cut -c1-100
-  [ $e -ne 0 ] && { rc=1; echo "$out" | grep -A1 '^VIOLATION' | head -6; }
-done
-echo "== seeded changes"; tools/selftest.sh 2>&1 | grep -v ": detected" ; [ $? -eq 0 ] && true
-echo "== reverted fixes"; tools/selftest_reverts.sh 2>&1 | grep -v "reported again"
-echo "== refactorings"; tools/tryrefactors.sh /verif/selftest/refactors/*.diff 2>&1 | grep -B1 -A3 "violations: [1-9]\|DOES NOT APPLY"
-echo "== done rc=$rc"
+export GOFLAGS=-mod=mod GOPROXY=off GOSUMDB=off GOTOOLCHAIN=local GOWORK=off
+./check.sh C15 quick >/dev/null 2>&1   # make sure the binary is current before the stages start
+(
+  rc=0
+  for c in C01 C02 C03 C04 C05 C06 C07 C08 C09 C10 C11 C12 C13 C14 C15 C16 C17 C18 C19 C20; do
+    out=$(./check.sh $c quick 2>&1); e=$?
+    echo "$out" | tail -1 | cut -c1-100
+    [ $e -ne 0 ] && { rc=1; echo "$out" | grep -A1 '^VIOLATION' | head -6; }
+  done
+  echo "rc=$rc"
+) > /tmp/regress.repo.out 2>&1 &
+(TMPDIR=/tmp/rg-seeds; mkdir -p $TMPDIR; export TMPDIR; tools/selftest.sh) > /tmp/regress.seeds.out 2>&1 &
+(TMPDIR=/tmp/rg-rev; mkdir -p $TMPDIR; export TMPDIR; tools/selftest_reverts.sh) > /tmp/regress.reverts.out 2>&1 &
+(TMPDIR=/tmp/rg-ref; mkdir -p $TMPDIR; export TMPDIR; tools/tryrefactors.sh /verif/selftest/refactors/*.diff) > /tmp/regress.refactors.out 2>&1 &
+wait
+echo "== checks on /repo"; grep -v "violations=0" /tmp/regress.repo.out
+echo "== seeded changes (not detected)"; grep -v ": detected" /tmp/regress.seeds.out
+echo "== reverted fixes (not reported)"; grep -v "reported again" /tmp/regress.reverts.out
+echo "== refactorings (alarms)"; awk '/^== /{n=$2} /rule=/{print n": "$0} /DOES NOT APPLY/{print}' /tmp/regress.refactors.out | cut -c1-260
+echo "== counts: seeds $(grep -c ': detected' /tmp/regress.seeds.out)/$(ls -d /verif/seeded/*/ | wc -l) reverts $(grep -c 'reported again' /tmp/regress.reverts.out)/$(ls /verif/selftest/reverts/*.diff | wc -l) refactors-silent $(grep -c 'violations: 0' /tmp/regress.refactors.out)/$(ls /verif/selftest/refactors/*.diff | wc -l)"
+rm -rf /tmp/rg-seeds /tmp/rg-rev /tmp/rg-ref
